@@ -11,7 +11,10 @@
 #include "ref_text.h"
 #include "ref_unicode.h"
 #include "gen_text.h"
+#include "gen_scale.h"
 #include <sstream>
+#include <memory>
+#include <type_traits>
 
 using vrt::Rng;
 using vrt::sfmt;
@@ -26,12 +29,29 @@ struct Snap {
     S bytes;
 };
 
+// where a result lives: the object (what a reference to the result is bound to) and the storage its data pointer designates
+struct Stor {
+    const char *what;
+    const void *obj;
+    size_t objsize;
+    const void *data;
+    size_t units, unit;      // elements, bytes per element
+    size_t limit;            // ST types: fewer elements than this live inside the object
+    bool st;                 // an ST::string / ST::buffer (storage rules apply) or a std:: string (only the overlap rules)
+};
+
 struct Pool {
     static const size_t N = 12;
     vrt::Box<ST::string> *obj[N] = {};
     S shadow[N];
     bool moved_from[N] = {};
     S history;
+    // a moved-from string may report any value, but not an absurd one (nothing bigger than what this pool has been given can come
+    // out of a move): 100000 covers the short phases, the scale phase raises it to the largest length in play
+    size_t sane_max = 100000;
+    // scale phase (same operations, same monitors, big values): main length of the case, cap for values grown by +=
+    bool scale_mode = false;
+    size_t scale_n = 0, grow_cap = 0;
 
     ~Pool() { for (size_t i = 0; i < N; ++i) kill(i); }
     void kill(size_t i) { delete obj[i]; obj[i] = nullptr; moved_from[i] = false; }
@@ -69,12 +89,57 @@ struct Pool {
                 fail("result-shares-storage-with-a-live-string", sfmt("%s aliases slot %zu %s", what, i, ctx.c_str()));
     }
 
-    std::vector<Snap> snapshot()
+    // the same for a result that was NOT moved into a box of its own but is looked at where the caller's reference to it points
+    // (`const auto &b = s.op();` / `auto &&b = s.op();`): neither the object nor its data may overlap a live string or its storage;
+    // returns false when they do (the caller then keeps away from destroying that string)
+    bool own_storage(const Stor &x, const std::string &ctx)
     {
-        std::vector<Snap> v(N);
-        for (size_t i = 0; i < N; ++i)
-            if (obj[i]) { const ST::string &s = **obj[i]; v[i] = Snap{s.c_str(), s.size(), S(s.c_str(), s.size())}; }
-        return v;
+        bool ok = true;
+        const char *ob = static_cast<const char *>(x.obj), *oe = ob + x.objsize;
+        const char *db = static_cast<const char *>(x.data), *de = db + (x.units + 1) * x.unit;
+        for (size_t k = 0; k < N; ++k) {
+            if (!obj[k]) continue;
+            if (ob < obj[k]->hi() && obj[k]->lo() < oe) {
+                fail("bound-result-is-part-of-a-live-string", sfmt("%s: the object the caller's reference designates lies inside the string in slot %zu (a reference to a member, not a value) %s", x.what, k, ctx.c_str()));
+                ok = false;
+            }
+            const ST::string &s = **obj[k];
+            const char *sb = s.c_str(), *se = sb + s.size() + 1;
+            if (db < se && sb < de) {
+                fail("bound-result-shares-storage-with-a-live-string", sfmt("%s: size=%zu data overlaps the storage of slot %zu %s", x.what, x.units, k, ctx.c_str()));
+                ok = false;
+            }
+        }
+        if (!ok || !x.st) return ok;
+        if (x.units < x.limit) {
+            if (!(db >= ob && de <= oe)) { fail("short-result-not-in-object", sfmt("%s size=%zu %s", x.what, x.units, ctx.c_str())); return true; }
+        } else {
+            va::Block *b = va::find(x.data);
+            if (!b || b->size != (x.units + 1) * x.unit) { fail("result-storage-not-an-own-block", sfmt("%s size=%zu %s", x.what, x.units, ctx.c_str())); return true; }
+        }
+        static const char zeros[8] = {};
+        if (memcmp(db + x.units * x.unit, zeros, x.unit) != 0) fail("no-terminator", sfmt("%s %s", x.what, ctx.c_str()));
+        return true;
+    }
+
+    // (the vector is reused from step to step: at scale a fresh copy of every live value per step would mostly cost page faults)
+    void snapshot(std::vector<Snap> &v)
+    {
+        v.resize(N);
+        for (size_t i = 0; i < N; ++i) {
+            if (obj[i]) { const ST::string &s = **obj[i]; v[i].data = s.c_str(); v[i].size = s.size(); v[i].bytes.assign(s.c_str(), s.size()); }
+            else { v[i].data = nullptr; v[i].size = 0; v[i].bytes.clear(); }
+        }
+    }
+    // storage of a long string must be a live registry block before anything is read through it
+    static bool readable(const ST::string &s) { return s.size() < 16 || va::find(s.c_str()) != nullptr; }
+    static bool same_bytes(const ST::string &s, const S &want) { return s.size() == want.size() && (want.empty() || memcmp(s.c_str(), want.data(), want.size()) == 0); }
+    static std::string show_at(const ST::string &s, const S &want)
+    {
+        const S got(s.c_str(), s.size());
+        if (got.size() <= 64 && want.size() <= 64) return sfmt("is %s, expected %s", show(got).c_str(), show(want).c_str());
+        const size_t at = scale::first_diff(got, want);
+        return sfmt("is %s, expected %s", scale::brief(got, at).c_str(), scale::brief(want, at).c_str());
     }
     // after a step: everything except `mutated` must be bit-identical (bytes, size, data pointer)
     void unchanged_except(const std::vector<Snap> &before, ssize_t mutated, ssize_t mutated2, const std::string &op)
@@ -82,8 +147,9 @@ struct Pool {
         for (size_t i = 0; i < N; ++i) {
             if (!obj[i] || static_cast<ssize_t>(i) == mutated || static_cast<ssize_t>(i) == mutated2 || !before[i].data) continue;
             const ST::string &s = **obj[i];
-            if (s.size() != before[i].size || S(s.c_str(), s.size()) != before[i].bytes)
-                fail("bystander-value-changed", sfmt("slot %zu was %s, is %s after %s", i, show(before[i].bytes).c_str(), show(S(s.c_str(), s.size())).c_str(), op.c_str()));
+            if (!readable(s)) { fail("bystander-storage-released", sfmt("slot %zu (size %zu): its heap block is no longer live after %s", i, s.size(), op.c_str())); continue; }
+            if (!same_bytes(s, before[i].bytes))
+                fail("bystander-value-changed", sfmt("slot %zu %s (expected = before) after %s", i, show_at(s, before[i].bytes).c_str(), op.c_str()));
             else if (s.c_str() != before[i].data)
                 fail("data-pointer-changed-by-a-read", sfmt("slot %zu after %s", i, op.c_str()));
         }
@@ -96,15 +162,16 @@ struct Pool {
             if (!obj[i]) continue;
             const ST::string &s = **obj[i];
             if (moved_from[i]) {
-                if (s.size() > 100000) { fail("moved-from:absurd-size", op); obj[i] = nullptr; continue; }
+                if (s.size() > sane_max) { fail("moved-from:absurd-size", op); obj[i] = nullptr; continue; }
                 if (s.size() < 16 && !obj[i]->inside(s.c_str())) { fail("moved-from:points-into-another-object", sfmt("slot %zu after %s", i, op.c_str())); continue; }
                 if (s.size() >= 16 && !va::find(s.c_str())) { fail("moved-from:dangling", sfmt("slot %zu after %s", i, op.c_str())); continue; }
                 shadow[i].assign(s.c_str(), s.size());
                 moved_from[i] = false;
                 vrt::count("moved_from.adopted");
             }
-            if (S(s.c_str(), s.size()) != shadow[i])
-                fail("value-differs-from-model", sfmt("slot %zu is %s, model %s after %s", i, show(S(s.c_str(), s.size())).c_str(), show(shadow[i]).c_str(), op.c_str()));
+            if (!readable(s)) { fail("storage-released", sfmt("slot %zu (size %zu): its heap block is no longer live after %s", i, s.size(), op.c_str())); continue; }
+            if (!same_bytes(s, shadow[i]))
+                fail("value-differs-from-model", sfmt("slot %zu %s after %s", i, show_at(s, shadow[i]).c_str(), op.c_str()));
             owns("pool string", *obj[i], sfmt("slot %zu after %s", i, op.c_str()), static_cast<ssize_t>(i));
         }
         // exclusive ownership inside the pool
@@ -130,6 +197,93 @@ static S pick_value(Rng &r)
     return s;
 }
 
+// ---- scale: values of exactly `len` bytes (4 KiB .. a few MiB): well-formed UTF-8 text over a dozen or more symbols (so that no
+// search in the reference model or the library degenerates), built from a random tile repeated with a period that is no power of
+// two; separators, blanks and upper-case letters are rare but present, some values start and end with blanks
+static S big_value(Rng &r, size_t len)
+{
+    static const char *const units_ascii[] = {"a", "b", "c", "d", "e", "f", "g", "h", "k", "m", "n", "o", "p", "r", "s", "t", "u", "w", "x", "y"};
+    static const char *const units_multi[] = {"\xC3\xA9", "\xC3\x89", "\xE2\x82\xAC", "\xF0\x9F\x98\x80", "\xC4\xB0", "\xEF\xBF\xBD"};
+    static const char *const units_rare[] = {" ", ",", ";", "A", "Q", "Z", "\t", "0", "7", "-"};
+    const unsigned flavour = static_cast<unsigned>(r.below(4));          // 0: lower-case ASCII, 1: + upper case, 2: + multi-byte, 3: mostly multi-byte
+    static const size_t periods[] = {1021, 2039, 4093, 8191, 16381, 32749, 65521, 131071};
+    size_t np = 1;
+    while (np < sizeof(periods) / sizeof(periods[0]) && periods[np] < len) ++np;
+    const size_t P = std::min(len, periods[r.below(np)]);
+    S tile;
+    tile.reserve(P + 4);
+    while (tile.size() < P) {
+        const unsigned k = static_cast<unsigned>(r.below(100));
+        if (k < 3) tile += r.pick(units_rare);
+        else if (flavour == 1 && k < 25) tile += static_cast<char>('A' + r.below(26));
+        else if ((flavour == 2 && k < 20) || (flavour == 3 && k < 80)) tile += r.pick(units_multi);
+        else tile += r.pick(units_ascii);
+    }
+    const bool blanks = len >= 64 && r.chance(1, 4);
+    const size_t lead = blanks ? 1 + r.below(5) : 0, trail = blanks ? 1 + r.below(5) : 0, body = len - trail;
+    S v(lead, ' ');
+    v.reserve(len + tile.size());
+    while (v.size() < body) v += tile;
+    v.resize(body);
+    // a character cut by the end of the body becomes ASCII
+    size_t b = body;
+    while (b > lead && body - b < 4 && (static_cast<unsigned char>(v[b - 1]) & 0xC0) == 0x80) --b;
+    if (b > lead && static_cast<unsigned char>(v[b - 1]) >= 0xC0) {
+        const unsigned char lc = static_cast<unsigned char>(v[b - 1]);
+        const size_t need = lc >= 0xF0 ? 4 : lc >= 0xE0 ? 3 : 2;
+        if (body - (b - 1) < need) for (size_t k = b - 1; k < body; ++k) v[k] = 'x';
+    }
+    for (size_t k = 0; k < trail; ++k) v += (k & 1) ? '\t' : ' ';
+    // something unique near both ends and in the middle (the tile repeats); only ASCII bytes are replaced
+    if (len >= 64) {
+        static const char marks[] = "jlqvz";
+        const size_t where[] = {8, len / 2, len - 32};
+        for (size_t w : where)
+            for (size_t k = w; k < w + 16 && k < len; ++k)
+                if (static_cast<unsigned char>(v[k]) < 0x80 && v[k] != ' ' && v[k] != '\t') { v[k] = marks[r.below(5)]; break; }
+    }
+    return v;
+}
+
+// the length of the next value of a scale case: the main length n of the case and its neighbours, another boundary length, half of
+// it, the exact size of a string that is alive right now - or one of the small size classes
+static S pick_for(Pool &p, Rng &r)
+{
+    if (!p.scale_mode) return pick_value(r);
+    const size_t n = p.scale_n;
+    size_t len;
+    switch (r.below(10)) {
+    case 0: case 1: case 2: { const long v = static_cast<long>(n) + scale::nudge(r); len = v < 0 ? 0 : static_cast<size_t>(v); break; }
+    case 3: len = n; break;
+    case 4: len = scale::length(r, std::min<size_t>(n, 262144), 2048); break;
+    case 5: len = r.chance(1, 2) ? n / 2 : n / 2 + n / 4; break;
+    case 6: { const size_t k = r.below(Pool::N); len = (p.obj[k] && !p.moved_from[k]) ? p.shadow[k].size() : n; break; }
+    default: return pick_value(r);
+    }
+    vrt::count("scale.big_values");
+    return len < 256 ? gen::bytes_over(r, len, "abcdefghijklmnopqrstuvwxyz  ,;") : big_value(r, len);
+}
+
+// scale: the needle of the searching operations is a short piece of t (an object of its own) instead of the whole of a big t - the
+// reference model scans naively (and so may the library); everything that does not search takes t itself
+struct Needle {
+    std::unique_ptr<vrt::Box<ST::string>> box;
+    S bytes;
+    Needle(Pool &p, Rng &r, const S &mt)
+    {
+        if (p.scale_mode && mt.size() > 64) {
+            const size_t k = 2 + r.below(7), at = r.chance(1, 2) ? scale::offset_any(r, mt.size() - k) : r.below(mt.size() - k + 1);
+            bytes = mt.substr(at, k);
+            box.reset(new vrt::Box<ST::string>(vrt::mk(bytes)));
+        }
+    }
+};
+static bool dense(Pool &p, size_t pieces)
+{
+    if (p.scale_mode && pieces > 4096) { vrt::count("scale.skipped_more_than_4096_pieces"); return true; }
+    return false;
+}
+
 // A const operation on slot i; returns the results as boxed strings with their expected values
 struct Produced {
     std::vector<vrt::Box<ST::string> *> results;
@@ -146,21 +300,29 @@ static std::string const_op(Pool &p, Rng &r, size_t i, size_t j, Produced &out)
     const bool ci = r.chance(1, 3);
     ST::case_sensitivity_t cs = ci ? ST::case_insensitive : ST::case_sensitive;
     std::string d;
+    Needle needle(p, r, mt);
+    const ST::string &tn = needle.box ? **needle.box : t;
+    const S &mtn = needle.box ? needle.bytes : mt;
+    const bool at_scale = p.scale_mode && ms.size() > 256;
     switch (r.below(30)) {
     case 0: out.add(s.substr(0), ms); d = "substr(whole)"; vrt::count("op.result_equals_source"); break;
-    case 1: { long st = r.range(-5, 20); size_t c = r.below(40); out.add(s.substr(st, c), ref::substr(ms, st, c)); d = sfmt("substr(%ld,%zu)", st, c); break; }
-    case 2: { size_t n = r.below(ms.size() + 3); out.add(s.left(n), ref::left(ms, n)); d = sfmt("left(%zu)", n); break; }
-    case 3: { size_t n = r.below(ms.size() + 3); out.add(s.right(n), ref::right(ms, n)); d = sfmt("right(%zu)", n); break; }
+    case 1: {
+        long st; size_t c;
+        if (at_scale) { st = static_cast<long>(scale::offset_any(r, ms.size())); if (r.chance(1, 3)) st = -st; c = r.chance(1, 3) ? static_cast<size_t>(-1) : r.chance(1, 2) ? scale::offset_any(r, ms.size()) : r.below(40); }
+        else { st = r.range(-5, 20); c = r.below(40); }
+        out.add(s.substr(st, c), ref::substr(ms, st, c)); d = sfmt("substr(%ld,%zu)", st, c); break; }
+    case 2: { size_t n = (at_scale && r.chance(3, 4)) ? scale::offset_any(r, ms.size()) : r.below(ms.size() + 3); out.add(s.left(n), ref::left(ms, n)); d = sfmt("left(%zu)", n); break; }
+    case 3: { size_t n = (at_scale && r.chance(3, 4)) ? scale::offset_any(r, ms.size()) : r.below(ms.size() + 3); out.add(s.right(n), ref::right(ms, n)); d = sfmt("right(%zu)", n); break; }
     case 4: out.add(s.trim(), ref::trim(ms, " \t\r\n")); d = "trim"; if (ref::trim(ms, " \t\r\n") == ms) vrt::count("op.result_equals_source"); break;
     case 5: out.add(s.trim_left("a "), ref::trim_left(ms, "a ")); out.add(s.trim_right(" ,"), ref::trim_right(ms, " ,")); d = "trim_left/right"; break;
-    case 6: out.add(s.before_first(t, cs), ref::before_first(ms, mt, ci)); out.add(s.after_first(t, cs), ref::after_first(ms, mt, ci)); d = sfmt("before/after_first(s%zu)", j); break;
-    case 7: out.add(s.before_last(t, cs), ref::before_last(ms, mt, ci)); out.add(s.after_last(t, cs), ref::after_last(ms, mt, ci)); d = sfmt("before/after_last(s%zu)", j); break;
+    case 6: out.add(s.before_first(tn, cs), ref::before_first(ms, mtn, ci)); out.add(s.after_first(tn, cs), ref::after_first(ms, mtn, ci)); d = sfmt("before/after_first(s%zu)", j); break;
+    case 7: out.add(s.before_last(tn, cs), ref::before_last(ms, mtn, ci)); out.add(s.after_last(tn, cs), ref::after_last(ms, mtn, ci)); d = sfmt("before/after_last(s%zu)", j); break;
     case 8: out.add(s.before_first(','), ref::before_first(ms, ",", false)); out.add(s.after_last(','), ref::after_last(ms, ",", false)); d = "before_first/after_last(',')"; break;
     case 9: out.add(s.to_upper(), ref::uppered(ms)); out.add(s.to_lower(), ref::folded(ms)); d = "to_upper/lower"; break;
     case 10: case 11: {
         // replace: the string overload re-validates its result (DESIGN 4/C09)
-        S want = ref::replace(ms, mt, "<>", ci);
-        try { out.add(s.replace(t, ST::string("<>"), cs), want); } catch (const ST::unicode_error &) { if (ref::utf8_ok(want)) p.fail("replace-threw", "valid result rejected"); }
+        S want = ref::replace(ms, mtn, "<>", ci);
+        try { out.add(s.replace(tn, ST::string("<>"), cs), want); } catch (const ST::unicode_error &) { if (ref::utf8_ok(want)) p.fail("replace-threw", "valid result rejected"); }
         d = sfmt("replace(s%zu,\"<>\")", j);
         if (want == ms) vrt::count("op.result_equals_source");
         break;
@@ -173,27 +335,30 @@ static std::string const_op(Pool &p, Rng &r, size_t i, size_t j, Produced &out)
     }
     case 13: {
         size_t mx = r.chance(1, 2) ? static_cast<size_t>(-1) : r.below(3);
-        std::vector<ST::string> v = s.split(t, mx, cs);
-        std::vector<S> want = ref::split(ms, mt, mx, ci);
         d = sfmt("split(s%zu)", j);
+        std::vector<S> want = ref::split(ms, mtn, mx, ci);
+        if (dense(p, want.size())) break;
+        std::vector<ST::string> v = s.split(tn, mx, cs);
         if (v.size() != want.size()) p.fail("split-piece-count", d);
         for (size_t k = 0; k < v.size() && k < want.size(); ++k) out.add(std::move(v[k]), want[k]);
         break;
     }
     case 14: {
-        std::vector<ST::string> v = s.split(',');
+        d = "split(',')";
         std::vector<S> want = ref::split(ms, ",", static_cast<size_t>(-1), false);
+        if (dense(p, want.size())) break;
+        std::vector<ST::string> v = s.split(',');
         if (v.size() != want.size()) p.fail("split-piece-count", d);
         for (size_t k = 0; k < v.size() && k < want.size(); ++k) out.add(std::move(v[k]), want[k]);
-        d = "split(',')";
         break;
     }
     case 15: {
-        std::vector<ST::string> v = s.tokenize(" ,");
+        d = "tokenize";
         std::vector<S> want = ref::tokenize(ms, " ,");
+        if (dense(p, want.size())) break;
+        std::vector<ST::string> v = s.tokenize(" ,");
         if (v.size() != want.size()) p.fail("tokenize-count", d);
         for (size_t k = 0; k < v.size() && k < want.size(); ++k) out.add(std::move(v[k]), want[k]);
-        d = "tokenize";
         break;
     }
     case 16: out.add(s + t, ms + mt); out.add(t + s, mt + ms); d = sfmt("s + s%zu", j); break;
@@ -220,7 +385,7 @@ static std::string const_op(Pool &p, Rng &r, size_t i, size_t j, Produced &out)
         break;
     }
     case 22: {
-        volatile unsigned long sink = static_cast<unsigned long>(s.find(t, cs)) + static_cast<unsigned long>(s.find_last(t, cs)) + s.contains(t) + s.starts_with(t, cs) + s.ends_with(t, cs) +
+        volatile unsigned long sink = static_cast<unsigned long>(s.find(tn, cs)) + static_cast<unsigned long>(s.find_last(tn, cs)) + s.contains(tn) + s.starts_with(t, cs) + s.ends_with(t, cs) +
                                       static_cast<unsigned long>(s.compare(t, cs)) + static_cast<unsigned long>(s.compare_n(t, 3)) + ST::hash()(s) + ST::hash_i()(s) + (s == t) + (s < t) +
                                       static_cast<unsigned long>(s.to_int()) + (s.to_double() > 0 ? 1u : 0u);
         (void)sink;
@@ -253,7 +418,7 @@ static std::string const_op(Pool &p, Rng &r, size_t i, size_t j, Produced &out)
         d = "iterate/view";
         break;
     }
-    case 26: out.add(ST::string::fill(r.below(20), 'z'), S()); out.expected.back() = S((**out.results.back()).size(), 'z'); d = "fill"; break;
+    case 26: { const size_t cnt = (p.scale_mode && r.chance(1, 2)) ? scale::length(r, static_cast<size_t>(4) << 20, 16) : r.below(20); out.add(ST::string::fill(cnt, 'z'), S(cnt, 'z')); d = sfmt("fill(%zu)", cnt); break; }
     case 27: { S want; for (unsigned char c : ms) ref::enc_utf8(want, c); out.add(ST::string::from_latin_1(s.to_utf8()), want); d = "from_latin_1(to_utf8)"; break; }
     case 28: out.add(ST::string::from_std_string(s.to_std_string(), ST::assume_valid), ms); out.add(ST::string(s.c_str(), s.size(), ST::assume_valid), ms); d = "rebuild from bytes"; vrt::count("op.result_equals_source"); break;
     default: {
@@ -269,20 +434,271 @@ static std::string const_op(Pool &p, Rng &r, size_t i, size_t j, Produced &out)
     return sfmt("s%zu[%zu].%s", i, ms.size(), d.c_str());
 }
 
-static void history(Rng &r, size_t steps)
+// ---- results held the way `const auto &b = s.op();` / `auto &&b = s.op();` holds them (on an operation that returns a value this
+// is a lifetime-extended temporary of the caller's; an operation that hands out a reference to something inside the string would
+// be bound to THAT).  The storage / independence monitors are applied to what the reference designates, not to a copy.
+static void describe(const ST::string &x, std::vector<Stor> &v) { v.push_back(Stor{"ST::string", &x, sizeof(x), x.c_str(), x.size(), 1, 16, true}); }
+template <typename T>
+static void describe(const ST::buffer<T> &x, std::vector<Stor> &v)
+{
+    v.push_back(Stor{"ST::buffer", &x, sizeof(x), x.data(), x.size(), sizeof(T), (sizeof(ST::buffer<T>) - sizeof(T *) - sizeof(size_t)) / sizeof(T), true});
+}
+template <typename T>
+static void describe(const std::basic_string<T> &x, std::vector<Stor> &v) { v.push_back(Stor{"std::basic_string", &x, sizeof(x), x.data(), x.size(), sizeof(T), 0, false}); }
+static void describe(const std::vector<ST::string> &x, std::vector<Stor> &v) { for (const ST::string &e : x) describe(e, v); }
+
+static void scribble(ST::string &x, Rng &r)
+{
+    switch (r.below(3)) {
+    case 0: x = "overwritten-result-value-0123456789"; break;
+    case 1: x += "+"; break;
+    default: x.clear(); break;
+    }
+}
+template <typename T>
+static void scribble(ST::buffer<T> &x, Rng &r)
+{
+    switch (r.below(3)) {
+    case 0: if (x.size()) { x.data()[0] = T('!'); x.data()[x.size() - 1] = T('!'); x.data()[x.size() / 2] = T('!'); } break;
+    case 1: x.allocate(x.size(), T('w')); break;
+    default: x.clear(); break;
+    }
+}
+template <typename T>
+static void scribble(std::basic_string<T> &x, Rng &) { for (auto &c : x) c = T('!'); x.push_back(T('+')); }
+static void scribble(std::vector<ST::string> &x, Rng &r) { for (ST::string &e : x) scribble(e, r); }
+
+// `b` is the caller's reference; R is const-qualified when the reference is
+template <typename R>
+static void probe_bound(Pool &p, Rng &r, size_t i, const std::vector<Snap> &before, R &b, const S *want, const std::string &d)
+{
+    std::vector<Stor> st;
+    describe(b, st);
+    bool sound = true;
+    for (const Stor &x : st) sound = p.own_storage(x, d) && sound;
+    for (size_t k = 0; k < st.size(); ++k)
+        for (size_t m = 0; m < k; ++m)
+            if (st[k].units >= st[k].limit && st[k].data == st[m].data) p.fail("two-results-share-storage", d);
+    std::vector<S> snap;
+    for (const Stor &x : st) snap.emplace_back(static_cast<const char *>(x.data), x.units * x.unit);
+    if (want && st.size() == 1 && snap[0] != *want)
+        p.fail("wrong-result", sfmt("%s: %s, expected %s", d.c_str(), snap[0].size() > 64 ? scale::brief(snap[0], scale::first_diff(snap[0], *want)).c_str() : show(snap[0]).c_str(),
+                                    want->size() > 64 ? scale::brief(*want, scale::first_diff(snap[0], *want)).c_str() : show(*want).c_str()));
+    p.unchanged_except(before, -1, -1, d);
+    vrt::count("bound.results", st.size());
+    vrt::count(std::is_const<R>::value ? "bound.const_lvalue_reference" : "bound.forwarding_reference");
+    if (st.empty()) return;
+    const bool source_first = r.chance(1, 2) || std::is_const<R>::value;
+    if (source_first) {
+        // modify / reassign / move from / destroy the SOURCE: what the reference designates keeps its place, size and bytes
+        ST::string &s = **p.obj[i];
+        unsigned how = static_cast<unsigned>(r.below(6));
+        if (!sound && how >= 4) how = 3;           // never read through a reference into an object that is gone
+        const char *what;
+        switch (how) {
+        case 0: { S nv = (p.scale_mode && p.shadow[i].size() > 256) ? big_value(r, p.shadow[i].size() + 3) : S(p.shadow[i].size() + 3, '#'); s = vrt::mk(nv); p.shadow[i].swap(nv); what = "overwrite source"; break; }
+        case 1: { size_t j = r.below(Pool::N); if (!p.obj[j] || p.moved_from[j]) j = i; s = static_cast<const ST::string &>(**p.obj[j]); p.shadow[i] = p.shadow[j]; what = "copy-assign to source"; break; }
+        case 2: s += "x"; p.shadow[i] += "x"; what = "append to source"; break;
+        case 3: s.clear(); p.shadow[i].clear(); what = "clear source"; break;
+        case 4: { ST::string taken(std::move(s)); p.moved_from[i] = true; what = "move from source"; break; }
+        default: p.kill(i); what = "destroy source"; break;
+        }
+        p.log(what);
+        std::vector<Stor> now;
+        describe(b, now);
+        if (now.size() != st.size()) p.fail("bound-result-changed-with-its-source", sfmt("%s then %s: number of results changed", d.c_str(), what));
+        for (size_t k = 0; k < now.size() && k < st.size(); ++k) {
+            if (now[k].data != st[k].data || now[k].units != st[k].units)
+                p.fail("bound-result-changed-with-its-source", sfmt("%s then %s: result %zu had size %zu, has %zu%s", d.c_str(), what, k, st[k].units, now[k].units, now[k].data != st[k].data ? " (and another data pointer)" : ""));
+            else if (!snap[k].empty() && memcmp(now[k].data, snap[k].data(), snap[k].size()) != 0)
+                p.fail("bound-result-changed-with-its-source", sfmt("%s then %s: bytes of result %zu changed", d.c_str(), what, k));
+        }
+        vrt::count("independence.bound_source_first");
+    } else {
+        if constexpr (!std::is_const<R>::value) scribble(b, r);
+        p.unchanged_except(before, -1, -1, d + " + write through the bound result");
+        vrt::count("independence.bound_result_first");
+    }
+}
+
+// `form` alternates between the two spellings a caller would use
+#define BOUND(EXPR, WANT)                                                                          \
+    do {                                                                                           \
+        if (form) { const auto &b = (EXPR); probe_bound(p, r, i, before, b, (WANT), d); }         \
+        else { auto &&b = (EXPR); probe_bound(p, r, i, before, b, (WANT), d); }                   \
+    } while (0)
+
+static std::string bound_op(Pool &p, Rng &r, size_t i, size_t j, const std::vector<Snap> &before)
+{
+    const ST::string &s = **p.obj[i];
+    const ST::string &t = **p.obj[j];
+    const S ms = p.shadow[i], mt = p.shadow[j];          // copies: the probe changes the source (and its model)
+    const bool ci = r.chance(1, 3);
+    const ST::case_sensitivity_t cs = ci ? ST::case_insensitive : ST::case_sensitive;
+    const bool form = r.chance(1, 2);
+    Needle needle(p, r, mt);
+    const ST::string &tn = needle.box ? **needle.box : t;
+    const S &mtn = needle.box ? needle.bytes : mt;
+    const bool at_scale = p.scale_mode && ms.size() > 256;
+    const S *none = nullptr;
+    const unsigned which = static_cast<unsigned>(r.below(30));
+    std::string d = sfmt("s%zu[%zu] bound to %s = ", i, ms.size(), form ? "const auto &" : "auto &&");
+    S want;
+    try {
+        switch (which) {
+        case 0: case 1: d += "to_utf8()"; BOUND(s.to_utf8(), &ms); vrt::count("bound.to_utf8"); break;
+        case 2: d += "substr(0)"; BOUND(s.substr(0), &ms); break;
+        case 3: {
+            long st; size_t c;
+            if (at_scale) { st = static_cast<long>(scale::offset_any(r, ms.size())); if (r.chance(1, 3)) st = -st; c = r.chance(1, 2) ? static_cast<size_t>(-1) : scale::offset_any(r, ms.size()); }
+            else { st = r.range(-5, 20); c = r.chance(1, 2) ? static_cast<size_t>(-1) : r.below(40); }
+            d += sfmt("substr(%ld,%zu)", st, c); want = ref::substr(ms, st, c); BOUND(s.substr(st, c), &want); break;
+        }
+        case 4: { const size_t n = (at_scale && r.chance(3, 4)) ? scale::offset_any(r, ms.size()) : r.below(ms.size() + 3); d += sfmt("left(%zu)", n); want = ref::left(ms, n); BOUND(s.left(n), &want); break; }
+        case 5: { const size_t n = (at_scale && r.chance(3, 4)) ? scale::offset_any(r, ms.size()) : r.below(ms.size() + 3); d += sfmt("right(%zu)", n); want = ref::right(ms, n); BOUND(s.right(n), &want); break; }
+        case 6: d += "trim()"; want = ref::trim(ms, " \t\r\n"); BOUND(s.trim(), &want); break;
+        case 7: d += "trim_left(\"a \")"; want = ref::trim_left(ms, "a "); BOUND(s.trim_left("a "), &want); break;
+        case 8: d += "trim_right(\" ,\")"; want = ref::trim_right(ms, " ,"); BOUND(s.trim_right(" ,"), &want); break;
+        case 9: d += sfmt("before_first(s%zu)", j); want = ref::before_first(ms, mtn, ci); BOUND(s.before_first(tn, cs), &want); break;
+        case 10: d += sfmt("after_last(s%zu)", j); want = ref::after_last(ms, mtn, ci); BOUND(s.after_last(tn, cs), &want); break;
+        case 11: d += "after_first(',')"; want = ref::after_first(ms, ",", false); BOUND(s.after_first(','), &want); break;
+        case 12: d += "before_last(\",\")"; want = ref::before_last(ms, ",", false); BOUND(s.before_last(","), &want); break;
+        case 13: d += "to_upper()"; want = ref::uppered(ms); BOUND(s.to_upper(), &want); break;
+        case 14: d += "to_lower()"; want = ref::folded(ms); BOUND(s.to_lower(), &want); break;
+        case 15: d += sfmt("replace(s%zu,\"<>\")", j); want = ref::replace(ms, mtn, "<>", ci); BOUND(s.replace(tn, ST::string("<>"), cs), &want); break;
+        case 16: d += "replace(no match)"; want = ref::replace(ms, "zzzq", "y", ci); BOUND(s.replace("zzzq", "y", cs, ST::assume_valid), &want); break;
+        case 17: {
+            d += "split(',')";
+            if (dense(p, ref::split(ms, ",", static_cast<size_t>(-1), false).size())) break;
+            BOUND(s.split(','), none); break;
+        }
+        case 18: {
+            d += "tokenize(\" ,\")";
+            if (dense(p, ref::tokenize(ms, " ,").size())) break;
+            BOUND(s.tokenize(" ,"), none); break;
+        }
+        case 19: {
+            const size_t mx = r.chance(1, 2) ? static_cast<size_t>(-1) : r.below(3);
+            d += sfmt("split(s%zu)", j);
+            if (dense(p, ref::split(ms, mtn, mx, ci).size())) break;
+            BOUND(s.split(tn, mx, cs), none); break;
+        }
+        case 20: d += sfmt("s + s%zu", j); want = ms + mt; BOUND(s + t, &want); break;
+        case 21: d += "s + \"lit\""; want = ms + "lit"; BOUND(s + "lit", &want); break;
+        case 22: d += "to_utf16()"; BOUND(s.to_utf16(), none); break;
+        case 23: d += "to_utf32()"; BOUND(s.to_utf32(), none); break;
+        case 24: d += "to_wchar()"; BOUND(s.to_wchar(), none); break;
+        case 25: d += "to_latin_1()"; BOUND(s.to_latin_1(), none); break;
+        case 26: d += "to_std_string()"; BOUND(s.to_std_string(), &ms); break;
+        case 27:
+            switch (r.below(4)) {
+            case 0: d += "to_std_u16string()"; BOUND(s.to_std_u16string(), none); break;
+            case 1: d += "to_std_u32string()"; BOUND(s.to_std_u32string(), none); break;
+            case 2: d += "to_std_wstring()"; BOUND(s.to_std_wstring(), none); break;
+            default: d += "to_std_u8string()"; BOUND(s.to_std_u8string(), none); break;
+            }
+            break;
+        case 28: d += "format(\"[{}]\", s)"; want = "[" + ms + "]"; BOUND(ST::format("[{}]", s), &want); break;
+        default: d += "s + s"; want = ms + ms; BOUND(s + s, &want); break;
+        }
+    } catch (const ST::unicode_error &e) {
+        d += sfmt(" rejected: %s", e.what());
+        // (validating overloads may reject operands that are not valid UTF-8: reachable after a byte-wise cut, also the cut that made the short needle)
+        if (ref::utf8_ok(ms) && ref::utf8_ok(mt) && ref::utf8_ok(mtn)) p.fail("unexpected-unicode_error", d);
+        vrt::count("op.rejected_invalid_utf8");
+    }
+    return d;
+}
+#undef BOUND
+
+// scale: a string is given a value of exactly the size it already holds (copy assignment / set from an lvalue - what refreshing a
+// record or a page of text does), then OTHER big strings are cleared, reassigned or destroyed; the monitors run after every one
+static void refresh_and_disturb(Pool &p, Rng &r, size_t i, std::vector<Snap> &before)
+{
+    for (int tries = 0; tries < 6 && p.shadow[i].size() < 4096; ++tries) { const size_t k = r.below(Pool::N); if (p.obj[k] && !p.moved_from[k] && p.shadow[k].size() >= 4096) i = k; }
+    const size_t size = p.shadow[i].size();
+    {
+        ST::string &s = **p.obj[i];
+        size_t twin = Pool::N;
+        for (size_t k = 0; k < Pool::N; ++k) if (k != i && p.obj[k] && !p.moved_from[k] && p.shadow[k].size() == size) twin = k;
+        std::string d;
+        if (twin < Pool::N && r.chance(1, 2)) {
+            if (r.chance(1, 2)) s = static_cast<const ST::string &>(**p.obj[twin]); else s.set(static_cast<const ST::string &>(**p.obj[twin]));
+            p.shadow[i] = p.shadow[twin];
+            d = sfmt("s%zu[%zu] = s%zu (the size it holds)", i, size, twin);
+        } else {
+            S v = size < 256 ? gen::bytes_over(r, size, "abcdefghijklmnopqrstuvwxyz  ,;") : big_value(r, size);
+            vrt::Box<ST::string> src(vrt::mk(v));
+            switch (r.below(3)) {
+            case 0: s = static_cast<const ST::string &>(*src); break;
+            case 1: s.set(static_cast<const ST::string &>(*src)); break;
+            default: { ST::char_buffer b = (*src).to_utf8(); s.set(static_cast<const ST::char_buffer &>(b), ST::assume_valid); break; }
+            }
+            p.shadow[i].swap(v);
+            d = sfmt("s%zu[%zu] = a new value of the size it holds", i, size);
+        }
+        p.log(d);
+        p.unchanged_except(before, static_cast<ssize_t>(i), -1, d);
+        p.check_models(d);
+        vrt::count("scale.assign_of_the_size_already_held");
+        if (size + 1 >= 65536) vrt::count("scale.assign_of_the_size_already_held>=64KiB");
+    }
+    const unsigned rounds = 1 + static_cast<unsigned>(r.below(3));
+    for (unsigned n = 0; n < rounds; ++n) {
+        size_t k = Pool::N;
+        for (int tries = 0; tries < 12; ++tries) { const size_t c = r.below(Pool::N); if (c != i && p.obj[c] && (k == Pool::N || p.shadow[c].size() > p.shadow[k].size())) k = c; }
+        if (k == Pool::N) break;
+        p.snapshot(before);
+        std::string d;
+        ST::string &o = **p.obj[k];
+        switch (r.below(5)) {
+        case 0: o.clear(); p.shadow[k].clear(); p.moved_from[k] = false; d = sfmt("s%zu.clear() (another string)", k); break;
+        case 1: { size_t j = r.below(Pool::N); if (!p.obj[j] || p.moved_from[j]) j = i; o = static_cast<const ST::string &>(**p.obj[j]); p.shadow[k] = p.shadow[j]; p.moved_from[k] = false; d = sfmt("s%zu = s%zu (another string)", k, j); break; }
+        case 2: { S v = pick_for(p, r); vrt::Box<ST::string> src(vrt::mk(v)); o.set(static_cast<const ST::string &>(*src)); p.shadow[k].swap(v); p.moved_from[k] = false; d = sfmt("s%zu.set(new value[%zu]) (another string)", k, p.shadow[k].size()); break; }
+        case 3: { o = static_cast<const ST::string &>(**p.obj[i]); p.shadow[k] = p.shadow[i]; p.moved_from[k] = false; d = sfmt("s%zu = s%zu (from the refreshed string)", k, i); break; }
+        default: p.kill(k); d = sfmt("destroy s%zu (another string)", k); break;
+        }
+        p.log(d);
+        p.unchanged_except(before, static_cast<ssize_t>(k), -1, d);
+        p.check_models(d);
+        vrt::count("scale.other_big_string_released_after_a_same_size_assignment");
+    }
+}
+
+static void history(Rng &r, size_t steps, size_t scale_n = 0)
 {
     Pool p;
-    for (size_t i = 0; i < Pool::N; ++i) if (r.chance(3, 4)) p.make(i, pick_value(r));
+    if (scale_n) {
+        p.scale_mode = true;
+        p.scale_n = scale_n;
+        p.grow_cap = 2 * scale_n + 4096;
+        p.sane_max = std::max<size_t>(100000, 2 * p.grow_cap);
+    }
+    for (size_t i = 0; i < Pool::N; ++i) if (r.chance(3, 4)) p.make(i, pick_for(p, r));
     p.make(0, S(20, 'q'));
     p.make(1, "short");
+    std::vector<Snap> before;
     for (size_t step = 0; step < steps; ++step) {
         size_t i = r.below(Pool::N), j = r.below(Pool::N);
-        if (!p.obj[i]) { p.make(i, pick_value(r)); p.log(sfmt("s%zu=new[%zu]", i, p.shadow[i].size())); p.check_models("create"); continue; }
+        if (!p.obj[i]) { p.make(i, pick_for(p, r)); p.log(sfmt("s%zu=new[%zu]", i, p.shadow[i].size())); p.check_models("create"); continue; }
         if (!p.obj[j]) j = i;
-        std::vector<Snap> before = p.snapshot();
+        p.snapshot(before);
         std::string d;
         ssize_t mut = -1, mut2 = -1;
-        const unsigned kind = static_cast<unsigned>(r.below(10));
+        const unsigned kind = static_cast<unsigned>(r.below(p.scale_mode ? 14 : 12));
+        if (kind >= 12) {
+            refresh_and_disturb(p, r, i, before);
+            vrt::count("steps");
+            continue;
+        }
+        if (kind >= 10) {
+            // ---- a const operation whose result the caller holds by reference
+            d = bound_op(p, r, i, j, before);
+            p.log(d);
+            p.check_models(d);
+            vrt::count("steps");
+            continue;
+        }
         if (kind < 6) {
             // ---- a const operation, then the independence test on its results
             Produced out;
@@ -298,8 +714,8 @@ static void history(Rng &r, size_t steps)
             p.unchanged_except(before, -1, -1, d);
             for (size_t k = 0; k < out.results.size(); ++k) {
                 const ST::string &res = **out.results[k];
-                if (S(res.c_str(), res.size()) != out.expected[k])
-                    p.fail("wrong-result", sfmt("%s result %zu is %s, expected %s", d.c_str(), k, show(S(res.c_str(), res.size())).c_str(), show(out.expected[k]).c_str()));
+                if (!Pool::same_bytes(res, out.expected[k]))
+                    p.fail("wrong-result", sfmt("%s result %zu %s", d.c_str(), k, Pool::show_at(res, out.expected[k]).c_str()));
                 p.owns("result", *out.results[k], d);
                 for (size_t m = 0; m < k; ++m)
                     if (res.size() >= 16 && res.c_str() == (**out.results[m]).c_str()) p.fail("two-results-share-storage", d);
@@ -308,11 +724,14 @@ static void history(Rng &r, size_t steps)
             if (!out.results.empty()) {
                 if (r.chance(1, 2)) {
                     // overwrite or destroy the SOURCE first: results must keep their values
-                    if (r.chance(1, 2)) { **p.obj[i] = vrt::mk(S(p.shadow[i].size() + 3, '#')); p.shadow[i] = S(p.shadow[i].size() + 3, '#'); p.log("overwrite source"); }
+                    if (r.chance(1, 2)) {
+                        S nv = (p.scale_mode && p.shadow[i].size() > 256) ? big_value(r, p.shadow[i].size() + 3) : S(p.shadow[i].size() + 3, '#');
+                        **p.obj[i] = vrt::mk(nv); p.shadow[i].swap(nv); p.log("overwrite source");
+                    }
                     else { p.kill(i); p.log("destroy source"); }
                     for (size_t k = 0; k < out.results.size(); ++k) {
                         const ST::string &res = **out.results[k];
-                        if (S(res.c_str(), res.size()) != out.expected[k]) p.fail("result-changed-with-its-source", d);
+                        if (!Pool::same_bytes(res, out.expected[k])) p.fail("result-changed-with-its-source", d);
                     }
                     vrt::count("independence.source_first");
                 } else {
@@ -334,7 +753,17 @@ static void history(Rng &r, size_t steps)
             const ST::string &t = **p.obj[j];
             const S mt = p.shadow[j];
             mut = static_cast<ssize_t>(i);
-            switch (r.below(16)) {
+            unsigned m = static_cast<unsigned>(r.below(16));
+            // scale: values grown by += stay below a cap (the step becomes an assignment instead)
+            if (p.scale_mode && m == 4 && p.shadow[i].size() + mt.size() > p.grow_cap) m = 0;
+            if (p.scale_mode && m == 5 && 2 * p.shadow[i].size() > p.grow_cap) m = 1;
+            // a range inside the string's own storage: anywhere, or (scale) starting next to a multiple of a block size and often running to the end
+            auto own_range = [&](size_t &k, size_t &n) {
+                const size_t sz = p.shadow[i].size();
+                if (p.scale_mode && sz > 256 && r.chance(2, 3)) { k = scale::offset_any(r, sz); n = r.chance(1, 2) ? sz - k : r.below(sz - k + 1); }
+                else { k = r.below(sz + 1); n = r.below(sz - k + 1); }
+            };
+            switch (m) {
             case 0: s = t; p.shadow[i] = mt; d = sfmt("s%zu = s%zu", i, j); if (i == j) vrt::count("op.self_referential"); break;
             case 1: s.set(t); p.shadow[i] = mt; d = sfmt("s%zu.set(s%zu)", i, j); if (i == j) vrt::count("op.self_referential"); break;
             case 2: s = std::move(**p.obj[j]); d = sfmt("s%zu = move(s%zu)", i, j);
@@ -348,7 +777,7 @@ static void history(Rng &r, size_t steps)
             case 6: s += "tail"; p.shadow[i] += "tail"; d = sfmt("s%zu += \"tail\"", i); break;
             case 7: s += 'c'; s += U'é'; p.shadow[i] += "c\xC3\xA9"; d = sfmt("s%zu += chars", i); break;
             case 8: s.clear(); p.shadow[i].clear(); d = sfmt("s%zu.clear()", i); break;
-            case 9: { S v = pick_value(r); s = vrt::mk(v); p.shadow[i] = v; d = sfmt("s%zu = new value[%zu]", i, v.size()); break; }
+            case 9: { S v = pick_for(p, r); s = vrt::mk(v); p.shadow[i] = v; d = sfmt("s%zu = new value[%zu]", i, v.size()); break; }
             case 10: s = "c-string value that is long enough"; p.shadow[i] = "c-string value that is long enough"; d = sfmt("s%zu = cstr", i); break;
             case 11: {
                 ST::char_buffer b = t.to_utf8();
@@ -359,12 +788,14 @@ static void history(Rng &r, size_t steps)
             }
             case 12: if (r.chance(1, 2)) s.set_validated(t.c_str(), t.size()); else s.set_validated(t.u8_str(), t.size()); p.shadow[i] = mt; d = sfmt("s%zu.set_validated(s%zu bytes)", i, j); if (i == j) vrt::count("op.self_referential"); break;
             case 13: s = s.substr(1); p.shadow[i] = ref::substr(p.shadow[i], 1, static_cast<size_t>(-1)); d = sfmt("s%zu = s%zu.substr(1)", i, i); vrt::count("op.self_referential"); break;
-            case 14:
+            case 14: {
                 // assignment from a pointer / view into the string's own storage
-                switch (r.below(9)) {
+                unsigned sub = static_cast<unsigned>(r.below(9));
+                if (p.scale_mode && sub == 5 && 2 * p.shadow[i].size() > p.grow_cap) sub = 2;      // (5 appends the string's own tail)
+                switch (sub) {
                 case 6: case 7: case 8: {
                     // ... the same through the repairing / checking modes: the source range is inside the target's own storage
-                    const size_t k = r.below(p.shadow[i].size() + 1), n = r.below(p.shadow[i].size() - k + 1);
+                    size_t k, n; own_range(k, n);
                     const S src = p.shadow[i].substr(k, n);
                     const bool subst = r.chance(2, 3), view = r.chance(1, 2);
                     const ST::utf_validation_t m = subst ? ST::substitute_invalid : ST::check_validity;
@@ -378,7 +809,7 @@ static void history(Rng &r, size_t steps)
                 }
                 case 0: if (r.chance(1, 2)) { s.set(s); d = sfmt("s%zu.set(self)", i); }
                         else {   // a sub-range of its own bytes, through both spellings of set_validated
-                            const size_t k = r.below(p.shadow[i].size() + 1), n = r.below(p.shadow[i].size() - k + 1);
+                            size_t k, n; own_range(k, n);
                             const S want = p.shadow[i].substr(k, n);
                             if (r.chance(1, 2)) s.set_validated(s.c_str() + k, n); else s.set_validated(s.u8_str() + k, n);
                             p.shadow[i] = want;
@@ -389,10 +820,10 @@ static void history(Rng &r, size_t steps)
                           d = sfmt("s%zu = s%zu.c_str()", i, i);
                           try { s = s.c_str(); p.shadow[i] = want; } catch (const ST::unicode_error &) { if (ref::utf8_ok(want)) p.fail("unexpected-unicode_error", d); }
                           break; }
-                case 2: { size_t k = r.below(p.shadow[i].size() + 1), n = r.below(p.shadow[i].size() - k + 1); S want = p.shadow[i].substr(k, n);
+                case 2: { size_t k, n; own_range(k, n); S want = p.shadow[i].substr(k, n);
                           d = sfmt("s%zu.set(s%zu.c_str()+%zu,%zu,assume_valid)", i, i, k, n);
                           s.set(s.c_str() + k, n, ST::assume_valid); p.shadow[i] = want; break; }
-                case 3: { size_t k = r.below(p.shadow[i].size() + 1), n = r.below(p.shadow[i].size() - k + 1); S want = p.shadow[i].substr(k, n);
+                case 3: { size_t k, n; own_range(k, n); S want = p.shadow[i].substr(k, n);
                           d = sfmt("s%zu = s%zu.view(%zu,%zu)", i, i, k, n);
                           try { s = s.view(k, n); p.shadow[i] = want; } catch (const ST::unicode_error &) { if (ref::utf8_ok(want)) p.fail("unexpected-unicode_error", d); }
                           break; }
@@ -408,6 +839,7 @@ static void history(Rng &r, size_t steps)
                 }
                 vrt::count("op.self_referential");
                 break;
+            }
             default: { ST::string tmp(std::move(s)); p.moved_from[i] = true; d = sfmt("move-construct from s%zu, then destroy the new object", i); vrt::count("op.move"); break; }
             }
             p.log(d);
@@ -432,8 +864,48 @@ static void body()
     vrt::require("op.self_referential", 5000);
     vrt::require("op.move", 2000);
     vrt::require("moved_from.adopted", 1000);
+    vrt::require("bound.results", 10000);
+    vrt::require("bound.to_utf8", 1000);
+    vrt::require("bound.const_lvalue_reference", 2000);
+    vrt::require("bound.forwarding_reference", 2000);
+    vrt::require("independence.bound_source_first", 2000);
+    vrt::require("independence.bound_result_first", 1000);
+    vrt::note("results are also held the way `const auto &b = s.op();` / `auto &&b = s.op();` holds them (every operation that returns a string, a buffer, a std:: string or a vector of strings): "
+              "the object and the storage the reference designates must not overlap any live string, and must keep place, size and bytes while the source is overwritten, appended to, cleared, moved from or destroyed");
     const size_t steps = vrt::thorough() ? 120 : 60;
     vrt::phase("histories", vrt::tier_count(40000, 300000), [&](uint64_t, Rng &r) { history(r, steps); });
+
+    // scale: the same histories (same operations, same monitors) over pools that mix the small size classes with values of
+    // q * B (+- a few) bytes for the block sizes B of rt/gen_scale.h, 4 KiB .. 1 MiB and a few up to 4 MiB: numeric arguments next to
+    // multiples of the block sizes, strings refreshed with a value of exactly the size they hold and then other big strings cleared /
+    // reassigned / destroyed, values grown by += up to twice the main length
+    {
+        std::vector<size_t> cells, bigger;
+        for (size_t q = 1; q <= 8; ++q)
+            for (size_t B : scale::blocks()) {
+                const size_t n = q * B;
+                if (n >= 4000 && n <= (static_cast<size_t>(1) << 20)) cells.push_back(n);
+                else if (n > (static_cast<size_t>(1) << 20) && n <= (static_cast<size_t>(4) << 20)) bigger.push_back(n);
+            }
+        for (size_t k = 0; k < bigger.size(); ++k) cells.insert(cells.begin() + static_cast<ssize_t>((k * 7 + 3) % cells.size()), bigger[k]);
+        const size_t budget = static_cast<size_t>(1) << 25;
+        vrt::require("scale.cases", 64);
+        vrt::require("scale.big_values", 500);
+        vrt::require("scale.assign_of_the_size_already_held", 100);
+        vrt::require("scale.assign_of_the_size_already_held>=64KiB", 20);
+        vrt::require("scale.other_big_string_released_after_a_same_size_assignment", 100);
+        vrt::require("scale.main_length>=64KiB", 20);
+        vrt::note(sfmt("scale phase: %zu main lengths q x B with q = 1..8 (4000 bytes .. 4 MiB), pools of 12 strings mixing them with the small size classes", cells.size()));
+        vrt::phase("scale", vrt::tier_count(3 * cells.size(), 60 * cells.size()), [&](uint64_t idx, Rng &r) {
+            const size_t n = cells[idx % cells.size()];
+            const size_t nsteps = std::max<size_t>(12, std::min<size_t>(steps, budget / n));
+            history(r, nsteps, n);
+            vrt::count("scale.cases");
+            if (n >= 65535) vrt::count("scale.main_length>=64KiB");
+            if (n >= (1u << 20)) vrt::count("scale.main_length>=1MiB");
+            if (vrt::want_sample("scale") && n >= 65536) vrt::sample("scale", sfmt("main length %zu bytes, %zu steps over a pool of 12 strings (values of %zu +- a few, %zu, another boundary length, the sizes of live strings, and the small classes)", n, nsteps, n, n / 2));
+        });
+    }
 }
 
 VRT_MAIN(body)
